@@ -61,6 +61,30 @@ Theorem C14_refcount : forall sch p,
 Proof. exact refcount_exact. Qed.
 Print Assumptions C14_refcount.
 
+(* the peer's death as the dispatcher sees it: an epoll event carrying EPOLLRDHUP closes the session
+   WHATEVER the first read(2) would return — 0 (the peer had consumed everything), ECONNRESET (bytes this
+   end wrote were still unread in the dead peer's socket), data, EAGAIN: handleEvent looks at EPOLLRDHUP
+   before it reads.  From any WInv state. *)
+Theorem C14_peer_death_event_closes : forall w i s ev,
+  WInv w -> nth_error (ss w) i = Some s -> conn_open s = true -> e_rdhup ev = true ->
+  let w' := step w (LEvent i ev) in
+  exists s', nth_error (ss w') i = Some s' /\ sd s' = true /\ chclosed s' = true /\ conn_open s' = false /\
+             (posted s' = true \/ cleaned s' = true) /\
+             Forall (fun st => st_notified st = true) (streams s') /\ WInv w'.
+Proof. exact peer_death_event_closes. Qed.
+Print Assumptions C14_peer_death_event_closes.
+
+(* ... and why the order of the two tests matters: without the EPOLLRDHUP bit an EOF read still closes,
+   but a read ERROR is swallowed by onReadReady (`if errCode != 0 { return }`, err = nil) — nothing is
+   reported.  The kernel reports a dead peer with EPOLLRDHUP (assumption, observed by the harness's
+   "peer hung with unread bytes" crash points), so the error outcome never arrives without the bit. *)
+Theorem C14_read_outcomes_without_rdhup : forall w i ev,
+  e_rdhup ev = false -> e_in ev = true ->
+  (e_read ev = RdEOF -> step w (LEvent i ev) = remote_close w i) /\
+  (e_read ev = RdErr -> step w (LEvent i ev) = w).
+Proof. exact read_eof_closes_read_error_is_silent. Qed.
+Print Assumptions C14_read_outcomes_without_rdhup.
+
 (* a session establishment that FAILS next to established siblings (the buffer manager of a path is shared
    process-wide): the error path gives back exactly the reference it took — no session changes, every
    path keeps its count, while anybody holds the path nothing is unmapped and the entry stays; and when
